@@ -338,6 +338,12 @@ def main(pid, argv=None):
             extra.append(([cc.param("p1", dict(k="coded", dct=cc.std(cc.BUINT, 16), v=32911), 0, 4),
                            cc.param("p2", dict(k="value", dop=cc.simple(cc.std(cc.BUINT, 3)), dflt=None), 2)],
                           False, None))
+            # corpus: the constant part ends with a terminated MIN-MAX constant which is the last object of the PDU (no
+            # terminator on the wire), and the same in front of a value
+            mmc = lambda: cc.param("c", dict(k="physconst", dop=cc.simple(cc.minmax(cc.BBYTES, 0, 6, 0)), v=b"AB"))
+            extra.append(([cc.param("sid", dict(k="coded", dct=cc.std(cc.BUINT, 8), v=0x31)), mmc()], False, None))
+            extra.append(([cc.param("sid", dict(k="coded", dct=cc.std(cc.BUINT, 8), v=0x31)), mmc(),
+                           cc.param("p3", dict(k="value", dop=cc.simple(cc.std(cc.BUINT, 8)), dflt=None))], False, None))
             # corpus: a response mirroring two request bytes (asked with requests ending inside the mirrored range)
             extra.append(([cc.param("sid", dict(k="coded", dct=cc.std(cc.BUINT, 8), v=0x62)),
                            cc.param("did", dict(k="matchreq", rqpos=1, len=2)),
@@ -520,6 +526,7 @@ def main(pid, argv=None):
         layer_mode_schedules(ck)
     if pid == "C08" and (not ck.replay or doc_level):
         condensed_mask_corpus(ck)
+        system_params_static(ck)
     if pid == "C02" and (not ck.replay or doc_level):
         wide_integer_corpus(ck)
     ck.assumptions = [
@@ -778,6 +785,65 @@ def layer_mode_schedules(ck):
             if failed:
                 break
     ck.coverage["layer_mode_messages"] = n
+
+
+def system_params_static(ck):
+    """C08 (oracle only; SYSTEM parameters are not modelled): the parameters reported as required are exactly those whose
+    omission makes encoding fail, the static length is the length of every encoding. SYSPARAM kinds: predefined ones
+    (value taken from the operating system when omitted), the same words in another capitalisation (not predefined) and
+    a custom kind"""
+    import hier_common as hc
+    u = lambda bits: ('<COMPU-METHOD><CATEGORY>IDENTICAL</CATEGORY></COMPU-METHOD>'
+                      f'<DIAG-CODED-TYPE BASE-DATA-TYPE="A_UINT32" xsi:type="STANDARD-LENGTH-TYPE"><BIT-LENGTH>{bits}</BIT-LENGTH></DIAG-CODED-TYPE>'
+                      '<PHYSICAL-TYPE BASE-DATA-TYPE="A_UINT32"/>')
+    kinds = [("p_minute", "MINUTE"), ("p_Minute", "Minute"), ("p_day", "DAY"), ("p_year", "year"), ("p_odo", "ODOMETER")]
+    params = ('<PARAM xsi:type="CODED-CONST"><SHORT-NAME>sid</SHORT-NAME><CODED-VALUE>46</CODED-VALUE>'
+              '<DIAG-CODED-TYPE BASE-DATA-TYPE="A_UINT32" xsi:type="STANDARD-LENGTH-TYPE"><BIT-LENGTH>8</BIT-LENGTH></DIAG-CODED-TYPE></PARAM>'
+              + "".join(f'<PARAM xsi:type="SYSTEM" SYSPARAM="{k}"><SHORT-NAME>{n}</SHORT-NAME><DOP-REF ID-REF="u16"/></PARAM>' for n, k in kinds)
+              + '<PARAM xsi:type="VALUE"><SHORT-NAME>v</SHORT-NAME><DOP-REF ID-REF="u8"/></PARAM>'
+              '<PARAM xsi:type="VALUE"><SHORT-NAME>w</SHORT-NAME><PHYSICAL-DEFAULT-VALUE>7</PHYSICAL-DEFAULT-VALUE><DOP-REF ID-REF="u8"/></PARAM>')
+    doc = ('<?xml version="1.0" encoding="UTF-8"?><ODX MODEL-VERSION="2.2.0" xmlns:xsi="http://www.w3.org/2001/XMLSchema-instance">'
+           '<DIAG-LAYER-CONTAINER ID="DLC"><SHORT-NAME>DLC</SHORT-NAME><BASE-VARIANTS><BASE-VARIANT ID="BV"><SHORT-NAME>BV</SHORT-NAME>'
+           f'<DIAG-DATA-DICTIONARY-SPEC><DATA-OBJECT-PROPS><DATA-OBJECT-PROP ID="u8"><SHORT-NAME>u8</SHORT-NAME>{u(8)}</DATA-OBJECT-PROP>'
+           f'<DATA-OBJECT-PROP ID="u16"><SHORT-NAME>u16</SHORT-NAME>{u(16)}</DATA-OBJECT-PROP></DATA-OBJECT-PROPS></DIAG-DATA-DICTIONARY-SPEC>'
+           f'<REQUESTS><REQUEST ID="rq"><SHORT-NAME>rq</SHORT-NAME><PARAMS>{params}</PARAMS></REQUEST></REQUESTS>'
+           '</BASE-VARIANT></BASE-VARIANTS></DIAG-LAYER-CONTAINER></ODX>')
+    try:
+        rq = hc.load_docs([doc]).diag_layers[0].diag_layer_raw.requests[0]
+    except Exception as e:  # noqa
+        ck.note_broken(f"cannot load the SYSTEM parameter document: {type(e).__name__}: {e}")
+        return
+    rep_ = {"document": "harness/codec_checks.py system_params_static", "request": "rq"}
+    full = {n: 10 + i for i, (n, _k) in enumerate(kinds)}
+    full.update(v=5, w=6)
+    required = sorted(p.short_name for p in rq.required_parameters)
+    free = sorted(p.short_name for p in rq.free_parameters)
+    ck.count(("sysparam", "static"))
+    if free != sorted(full):
+        ck.violation(f"free parameters reported {free}, the caller can set {sorted(full)}", rep_)
+        return
+    r, e, _ = cc.guarded(lambda: bytes(rq.encode(**full)))
+    sb = rq.get_static_bit_length()
+    if e is not None or sb != 8 * len(r):
+        ck.violation(f"request with SYSTEM parameters: encoding {r!r} {e!r}, static bit length {sb}", rep_)
+        return
+    for n in sorted(full):
+        ck.count(("sysparam", "omit", n))
+        v2 = {k: x for k, x in full.items() if k != n}
+        r2, e2, _ = cc.guarded(lambda: bytes(rq.encode(**v2)))
+        fails = e2 is not None
+        if fails != (n in required):
+            ck.violation(f"parameter {n} is {'' if n in required else 'not '}reported as required, but encoding without it "
+                         f"{'fails (' + type(e2).__name__ + ')' if fails else 'succeeds'}", dict(rep_, omitted=n))
+            return
+        if not fails and len(r2) * 8 != sb:
+            ck.violation(f"static bit length {sb} reported but the encoding without {n} has {8 * len(r2)} bits", dict(rep_, omitted=n))
+            return
+    # exactly the reported required parameters suffice
+    ck.count(("sysparam", "required-only"))
+    r3, e3, _ = cc.guarded(lambda: bytes(rq.encode(**{k: full[k] for k in required})))
+    if e3 is not None:
+        ck.violation(f"encoding with exactly the parameters reported as required {required} fails: {type(e3).__name__}: {e3}", rep_)
 
 
 def condensed_mask_corpus(ck):
